@@ -1,0 +1,87 @@
+//go:build verif
+
+package transaction
+
+// Contracts for the verif build tag (comment-only; see /verif/DESIGN.md).
+
+//@ prop C15
+//@ import keys github.com/nspcc-dev/neo-go/pkg/crypto/keys
+//@ import util github.com/nspcc-dev/neo-go/pkg/util
+
+// The four facts a witness condition may depend on, as specification-only state of
+// the matching context.
+//@ ghost MatchContext.cbe bool
+//@ ghost MatchContext.cur util.Uint160
+//@ ghost MatchContext.calling util.Uint160
+//@ spec grp(ctx MatchContext, h util.Uint160, k *keys.PublicKey) bool
+
+//@ iface MatchContext.IsCalledByEntry
+//@ pure
+//@ ensures result == recv.cbe
+//@ iface MatchContext.GetCurrentScriptHash
+//@ pure
+//@ ensures result == recv.cur
+//@ iface MatchContext.GetCallingScriptHash
+//@ pure
+//@ ensures result == recv.calling
+//@ iface MatchContext.CurrentScriptHasGroup
+//@ pure
+//@ ensures result1 == nil ==> result0 == grp(recv, recv.cur, arg0)
+//@ iface MatchContext.CallingScriptHasGroup
+//@ pure
+//@ ensures result1 == nil ==> result0 == grp(recv, recv.calling, arg0)
+
+//@ spec match(c WitnessCondition, ctx MatchContext) bool decreases 0 =
+//@   ite(is(c, *ConditionBoolean), bool(*c.(*ConditionBoolean)),
+//@   ite(is(c, *ConditionNot), !match(c.(*ConditionNot).Condition, ctx),
+//@   ite(is(c, *ConditionAnd), forall(i, 0, len(*c.(*ConditionAnd)), match((*c.(*ConditionAnd))[i], ctx)),
+//@   ite(is(c, *ConditionOr), exists(i, 0, len(*c.(*ConditionOr)), match((*c.(*ConditionOr))[i], ctx)),
+//@   ite(is(c, *ConditionScriptHash), util.Uint160(*c.(*ConditionScriptHash)) == ctx.cur,
+//@   ite(is(c, *ConditionGroup), grp(ctx, ctx.cur, (*keys.PublicKey)(c.(*ConditionGroup))),
+//@   ite(is(c, ConditionCalledByEntry), ctx.cbe,
+//@   ite(is(c, *ConditionCalledByContract), util.Uint160(*c.(*ConditionCalledByContract)) == ctx.calling,
+//@   ite(is(c, *ConditionCalledByGroup), grp(ctx, ctx.calling, (*keys.PublicKey)(c.(*ConditionCalledByGroup))),
+//@       false)))))))))
+
+//@ iface WitnessCondition.Match
+//@ pure
+//@ requires recv != nil && arg0 != nil
+//@ ensures result1 == nil ==> result0 == match(recv, arg0)
+
+//@ func (*ConditionBoolean).Match
+//@ requires c != nil
+//@ ensures[match] err == nil && result0 == match(WitnessCondition(c), arg1)
+
+//@ func (*ConditionNot).Match
+//@ requires c != nil && ctx != nil && c.Condition != nil
+//@ ensures[match] result1 == nil ==> result0 == match(WitnessCondition(c), ctx)
+
+//@ func (*ConditionAnd).Match
+//@ requires c != nil && ctx != nil && forall(i, 0, len(*c), (*c)[i] != nil)
+//@ ensures[match] result1 == nil ==> result0 == match(WitnessCondition(c), ctx)
+//@ loop 0 invariant forall(j, 0, $i, match((*c)[j], ctx))
+
+//@ func (*ConditionOr).Match
+//@ requires c != nil && ctx != nil && forall(i, 0, len(*c), (*c)[i] != nil)
+//@ ensures[match] result1 == nil ==> result0 == match(WitnessCondition(c), ctx)
+//@ loop 0 invariant forall(j, 0, $i, !match((*c)[j], ctx))
+
+//@ func (*ConditionScriptHash).Match
+//@ requires c != nil && ctx != nil
+//@ ensures[match] result1 == nil && result0 == match(WitnessCondition(c), ctx)
+
+//@ func (*ConditionGroup).Match
+//@ requires c != nil && ctx != nil
+//@ ensures[match] result1 == nil ==> result0 == match(WitnessCondition(c), ctx)
+
+//@ func (ConditionCalledByEntry).Match
+//@ requires ctx != nil
+//@ ensures[match] result1 == nil && result0 == match(WitnessCondition(c), ctx)
+
+//@ func (*ConditionCalledByContract).Match
+//@ requires c != nil && ctx != nil
+//@ ensures[match] result1 == nil && result0 == match(WitnessCondition(c), ctx)
+
+//@ func (*ConditionCalledByGroup).Match
+//@ requires c != nil && ctx != nil
+//@ ensures[match] result1 == nil ==> result0 == match(WitnessCondition(c), ctx)
